@@ -2,6 +2,7 @@ package verifsim
 
 import (
 	"strings"
+	"unicode/utf8"
 
 	"google.golang.org/protobuf/proto"
 
@@ -114,9 +115,43 @@ var simMethods = []methodInfo{
 	{"Unary", false, false, false}, {"UnaryNSE", false, false, true}, {"ClientStream", true, false, false},
 	{"ServerStream", false, true, false}, {"Bidi", true, true, false},
 	{"RestAll", false, false, false}, {"RestAllNSE", false, false, true}, // bound with POST /sim/v1/all{,nse} body "*"
+	{"RestGet", false, false, false}, // bound with GET /sim/v1/get/{string_value}, no body (RPC clients only)
 }
 
-func isRestBound(method string) bool { return method == "RestAll" || method == "RestAllNSE" }
+func isRestBound(method string) bool {
+	return method == "RestAll" || method == "RestAllNSE" || method == "RestGet"
+}
+
+// genQueryableMsg draws an AllTypes message that a binding without a body can carry: a non-empty path variable and a few
+// scalar fields for the query string.
+func genQueryableMsg(c *Chooser, md protoreflect.MessageDescriptor, mo *MsgGenOpts) proto.Message {
+	m := newMessageFor(md)
+	r := m.ProtoReflect()
+	fs := md.Fields()
+	po := *mo
+	po.PathSafe = true
+	sv := genString(c, &po)
+	if sv == "" || !utf8.ValidString(sv) {
+		sv = "x"
+	}
+	r.Set(fs.ByName("string_value"), protoreflect.ValueOfString(sv))
+	if c.Bool() {
+		r.Set(fs.ByName("int32_value"), protoreflect.ValueOfInt32(int32(c.Range(-5, 100000))))
+	}
+	if c.Bool() {
+		r.Set(fs.ByName("bool_value"), protoreflect.ValueOfBool(true))
+	}
+	if c.Bool() {
+		l := r.Mutable(fs.ByName("string_list")).List()
+		for i := c.Intn(3); i >= 0; i-- {
+			s := genString(c, mo)
+			if utf8.ValidString(s) {
+				l.Append(protoreflect.ValueOfString(s))
+			}
+		}
+	}
+	return m
+}
 
 func genHeaderSet(c *Chooser, n int) [][2]string {
 	names := []string{"X-App", "x-lower", "X-Multi", "X-Data-Bin", "Authorization", "X-Trace-Id", "Cookie", "X-Empty", "Message", "X-Custom-Bin"}
@@ -247,6 +282,9 @@ func genRPC(c *Chooser, o ScenOpts) *RPCPlan {
 	var cands []methodInfo
 	for _, m := range simMethods {
 		streaming := m.CS || m.SS
+		if m.Name == "RestGet" && form == FormREST {
+			continue
+		}
 		switch form {
 		case FormConnectUnary:
 			if streaming {
@@ -317,6 +355,9 @@ func genRPC(c *Chooser, o ScenOpts) *RPCPlan {
 	}
 	for i := 0; i < nreq; i++ {
 		ms := MsgSpec{Data: canonBytes(genMessage(c, md.Input(), mo, 0)), Compressed: c.Prob(0.6)}
+		if m.Name == "RestGet" {
+			ms.Data = canonBytes(genQueryableMsg(c, md.Input(), mo))
+		}
 		if nreq > 1 && c.Prob(0.15) {
 			ms.Data = []byte{} // the all-defaults message: zero bytes in the binary codec, anywhere in a stream
 		}
